@@ -1,0 +1,16 @@
+//go:build !verif
+
+package tls
+
+// Verification hooks are compiled out without the `verif` build tag: verifServerHook
+// always returns nil, so every guarded call site is dead code.
+
+type verifServerHooks struct {
+	RewriteHandshake        func(data []byte) []byte
+	LegacyVersionOnly       bool
+	SuppressDowngradeCanary bool
+	ForceSuiteTLS13         uint16
+	TolerateCookieEcho      bool
+}
+
+func verifServerHook(c *Conn) *verifServerHooks { return nil }
